@@ -151,8 +151,15 @@ func (sc *scenario) describe(r *vlib.Rand) {
 			n++
 		}
 	}
+	for _, b := range sc.badNotes {
+		h += ";bad:" + b
+	}
 	sc.c.DistinctStr(h)
 	sc.c.Count("records_handed_over", int64(n))
+	if len(sc.badNotes) > 0 {
+		sc.Desc["unencodable_records_kind@before_record"] = sc.badNotes
+		sc.c.Count("scenarios_with_unencodable_records", 1)
+	}
 	if sc.c.WantSample() {
 		var recs []interface{}
 		for _, l := range sc.Handed {
@@ -219,12 +226,25 @@ func runAppend(c *vlib.Ctx, section string, r *vlib.Rand, useDefaults bool) {
 	var m model
 	t := baseTime + int64(r.Intn(1000))
 	seq := 0
+	withBad := r.Chance(1, 3) // unencodable records between the good ones
+	nbad := 0
 	for k := 0; k < n; k++ {
 		if k == reconfAt {
 			apply()
 			c.Count("reconfigured_midstream", 1)
+			if m.count > 0 {
+				c.Count("reconfigured_with_records_buffered", 1)
+			}
 		}
 		S := sc.Epochs[len(sc.Epochs)-1].S
+		for withBad && r.Chance(1, 6) {
+			// the model is not told: such a record adds no bytes, opens no batch, closes none
+			if b := newBad(r, nbad, t, S.Wait, true); b != nil {
+				sc.handBad(b, fmt.Sprintf("r0.%d", seq))
+				s.Append(b.P)
+				nbad++
+			}
+		}
 		sp := nextSpec(c, r, &m, S, seq, &t, true)
 		seq++
 		sc.hand(sp)
@@ -271,8 +291,10 @@ func runSendDirect(c *vlib.Ctx, section string, r *vlib.Rand, useDefaults bool) 
 	t := baseTime + int64(r.Intn(1000))
 	seq := 0
 	var lens []int
+	withBad := r.Chance(1, 4) // unencodable records inside the slices
+	nbad := 0
 	for k := 0; k < calls; k++ {
-		if !useDefaults && k > 0 && r.Chance(1, 5) {
+		if k > 0 && r.Chance(1, 4) {
 			apply()
 			c.Count("reconfigured_midstream", 1)
 		}
@@ -293,7 +315,17 @@ func runSendDirect(c *vlib.Ctx, section string, r *vlib.Rand, useDefaults bool) 
 		}
 		var m model
 		var lastSp *recSpec
+		var callIDs []string
+		var callBad []string
 		for j := 0; j < l; j++ {
+			if withBad && r.Chance(1, 6) {
+				if b := newBad(r, nbad, t, S.Wait, true); b != nil {
+					sc.handBad(b, fmt.Sprintf("r0.%d", seq))
+					arr = append(arr, b.P)
+					callBad = append(callBad, fmt.Sprintf("%s at index %d of the slice", b.Kind, len(arr)-1))
+					nbad++
+				}
+			}
 			var sp *recSpec
 			if l == 1 && r.Chance(2, 3) {
 				// a call with one record whose size sits on the compression threshold
@@ -307,13 +339,33 @@ func runSendDirect(c *vlib.Ctx, section string, r *vlib.Rand, useDefaults bool) 
 			seq++
 			sc.hand(sp)
 			arr = append(arr, sp.build())
+			callIDs = append(callIDs, sp.ID)
 			m.add(sp, S, false)
 			lastSp = sp
+		}
+		if withBad && l > 0 && r.Chance(1, 8) {
+			if b := newBad(r, nbad, t, S.Wait, true); b != nil { // the slice ends with one
+				sc.handBad(b, fmt.Sprintf("end-of-call-%d", k))
+				arr = append(arr, b.P)
+				callBad = append(callBad, fmt.Sprintf("%s at index %d of the slice", b.Kind, len(arr)-1))
+				nbad++
+			}
 		}
 		if lastSp != nil {
 			sc.tailIDs[lastSp.ID] = true
 		}
-		s.SendDirect(arr)
+		if len(callBad) == 0 {
+			s.SendDirect(arr)
+		} else if pv := vlib.Catch(func() { s.SendDirect(arr) }); pv != nil {
+			// The good records of this call that were not flushed before the panic are gone with it:
+			// reported here, once, with the call (not again record by record).
+			for _, id := range callIDs {
+				sc.excused[id] = true
+			}
+			c.Fail("ZipSendProxyThread.SendDirect:panic-on-unencodable-record",
+				fmt.Sprintf("SendDirect panicked out to its caller on a record that cannot be encoded (%v): %v — those of the %d good record(s) of the same slice that were not yet flushed are never emitted", callBad, pv, len(callIDs)),
+				sc.detail(map[string]interface{}{"call": k, "slice_len": len(arr), "unencodable": callBad, "good_records_of_the_call": callIDs, "panic": fmt.Sprint(pv)}, nil))
+		}
 		c.Count("senddirect_calls", 1)
 	}
 	sc.Desc["call_lengths"] = lens
@@ -433,6 +485,30 @@ func startQueueSender(c *vlib.Ctx, caseID string, sc *scenario, client *recClien
 	return q
 }
 
+// planBad places n unencodable records in the producers' plans: badAt[p][k] are put by producer
+// p right before its k-th record (k == len(plan): after its last one).
+func planBad(sc *scenario, r *vlib.Rand, n int, plans [][]*recSpec, clock func(p int) int64, wait int64) []map[int][]*badRec {
+	badAt := make([]map[int][]*badRec, len(plans))
+	for p := range badAt {
+		badAt[p] = map[int][]*badRec{}
+	}
+	for i := 0; i < n; i++ {
+		p := r.Intn(len(plans))
+		k := r.Intn(len(plans[p]) + 1)
+		b := newBad(r, i, clock(p), wait, true)
+		if b == nil {
+			continue
+		}
+		before := fmt.Sprintf("end-of-producer-%d", p)
+		if k < len(plans[p]) {
+			before = plans[p][k].ID
+		}
+		sc.handBad(b, before)
+		badAt[p][k] = append(badAt[p][k], b)
+	}
+	return badAt
+}
+
 // kind: "config" (settings applied), "defaults" (nothing applied), "capacity" (the client
 // blocks the first hand-over while a burst larger than the queue is put).
 func runQueue(c *vlib.Ctx, section string, idx int, r *vlib.Rand, kind string) {
@@ -455,9 +531,13 @@ func runQueue(c *vlib.Ctx, section string, idx int, r *vlib.Rand, kind string) {
 	if capacity {
 		nprod = 1
 	}
+	nbad := 0 // unencodable records put between the good ones (they take queue slots like any other)
+	if !capacity && r.Chance(1, 3) {
+		nbad = r.Range(1, 1+total/6)
+	}
 	var st settings
 	if configured {
-		st = drawSettings(r, true, total)
+		st = drawSettings(r, true, total+nbad)
 		if capacity {
 			st.Queue = []int{1, 2, 7, 50, 300}[r.Intn(5)]
 			if st.Buf > 4096 {
@@ -562,12 +642,21 @@ func runQueue(c *vlib.Ctx, section string, idx int, r *vlib.Rand, kind string) {
 				sc.hand(sp)
 			}
 		}
+		badAt := planBad(sc, r, nbad, plans, func(p int) int64 { return tBase + clocks[p] }, st.Wait)
 		var wg sync.WaitGroup
 		for p := 0; p < nprod; p++ {
 			wg.Add(1)
 			go func(p int) {
 				defer wg.Done()
+				defer func() {
+					for _, b := range badAt[p][len(plans[p])] {
+						s.Add(b.P)
+					}
+				}()
 				for k, sp := range plans[p] {
+					for _, b := range badAt[p][k] {
+						s.Add(b.P)
+					}
 					lp := sp.build()
 					s.Add(lp)
 					switch pz := pauses[p][k]; {
@@ -642,10 +731,14 @@ func runStop(c *vlib.Ctx, section string, idx int, r *vlib.Rand) {
 	if timing == 2 || timing == 3 {
 		nlate = r.Range(1, 3)
 	}
+	nbad := 0
+	if r.Chance(1, 3) {
+		nbad = r.Range(1, 1+total/6)
+	}
 	st := builtin
 	if configured {
 		st = settings{Wait: int64(r.Range(250, 900)), Buf: stopBufs[r.Intn(len(stopBufs))], ZipMin: zipMins[r.Intn(len(zipMins))],
-			Queue: total + nlate + []int{0, 1, 1000}[r.Intn(3)]}
+			Queue: total + nlate + nbad + []int{0, 1, 1000}[r.Intn(3)]}
 	}
 	old := runtime.GOMAXPROCS([]int{2, 4, 8, 16}[r.Intn(4)])
 	defer runtime.GOMAXPROCS(old)
@@ -705,13 +798,22 @@ func runStop(c *vlib.Ctx, section string, idx int, r *vlib.Rand) {
 		sc.hand(sp)
 		sc.late[sp.ID] = true
 	}
+	badAt := planBad(sc, r, nbad, plans, func(p int) int64 { return tBase + clocks[p] }, st.Wait)
 	var added atomic.Int64
 	var wg sync.WaitGroup
 	for p := 0; p < nprod; p++ {
 		wg.Add(1)
 		go func(p int) {
 			defer wg.Done()
+			defer func() {
+				for _, b := range badAt[p][len(plans[p])] {
+					s.Add(b.P)
+				}
+			}()
 			for k, sp := range plans[p] {
+				for _, b := range badAt[p][k] {
+					s.Add(b.P)
+				}
 				s.Add(sp.build())
 				added.Add(1)
 				if k%5 == 4 {
@@ -776,24 +878,274 @@ func runStop(c *vlib.Ctx, section string, idx int, r *vlib.Rand) {
 	sc.evaluate()
 }
 
+// ---- reconfiguration while records are pending in the queue ----------------------------------------
+
+// drawReconf draws the settings of a reconfiguration made while qlen records are pending: each of
+// the four keys is kept or changed; the queue size is changed in most cases — larger, smaller
+// (down to below the number of records pending: what was accepted stays accepted) or to 1.
+func drawReconf(r *vlib.Rand, cur settings, qlen int) (settings, string) {
+	st := cur
+	how := "same"
+	switch r.Intn(8) {
+	case 0, 1, 2:
+		st.Queue = cur.Queue + r.Range(1, 60)
+		how = "larger"
+	case 3:
+		st.Queue = cur.Queue + 1000
+		how = "larger"
+	case 4:
+		st.Queue = qlen - r.Intn(3) // at or just below what is pending
+		how = "smaller"
+	case 5:
+		st.Queue = cur.Queue / 2
+		how = "smaller"
+	case 6:
+		st.Queue = 1
+		how = "smaller"
+	}
+	if st.Queue < 1 {
+		st.Queue = 1
+	}
+	switch {
+	case st.Queue == cur.Queue:
+		how = "same"
+	case st.Queue > cur.Queue:
+		how = "larger"
+	default:
+		how = "smaller"
+	}
+	if r.Chance(2, 3) || cur.Wait > 200 { // (never keep the 5 s default: the stop would take that long)
+		st.Wait = int64(r.Range(30, 200))
+	}
+	if r.Chance(2, 3) {
+		st.Buf = bufs[r.Intn(len(bufs))]
+	}
+	if r.Chance(2, 3) {
+		st.ZipMin = zipMins[r.Intn(len(zipMins))]
+	}
+	return st, how
+}
+
+// runReconfig: the real ApplyConfig is called while records are pending in the queue. The
+// sender's goroutine is parked inside the recording client's SendFlush (the client signals that
+// it has entered and waits for the gate), so the monitor's ApplyConfig / VerifSettings calls are
+// ordered against every access of that goroutine by the two channel operations — no
+// unsynchronised access is introduced. While it is parked nothing leaves the queue: the monitor
+// knows exactly how many records the queue holds and therefore which Add the capacity in force
+// accepts. Every accepted record — put before, between and after the reconfigurations — must be
+// emitted exactly once and in order once the client is released, batched under the settings
+// applied last (the ones in force when the goroutine appends them).
+func runReconfig(c *vlib.Ctx, section string, idx int, r *vlib.Rand) {
+	caseID := fmt.Sprintf("%s#%d", section, idx)
+	mode := pickMode(r)
+	client := newRecClient(mode, true)
+	sc := newScenario(c, section, "queue", mode)
+	configured := !r.Chance(1, 7) // else: the built-in defaults are in force until the reconfiguration
+	st := builtin
+	if configured {
+		st = drawSettings(r, true, 0)
+		st.Queue = []int{1, 2, 7, 20, 50, 300}[r.Intn(6)]
+		if st.Buf > 4096 {
+			st.Buf = 4096
+		}
+	}
+	old := runtime.GOMAXPROCS([]int{2, 4, 8, 16}[r.Intn(4)])
+	defer runtime.GOMAXPROCS(old)
+	sc.Desc["gomaxprocs"] = runtime.GOMAXPROCS(0)
+
+	q := startQueueSender(c, caseID, sc, client, st, configured, 2)
+	if q == nil {
+		return
+	}
+	s, stop := q.s, q.stop
+	minWait := st.Wait
+	t := baseTime + int64(r.Intn(1000))
+	seq := 0
+	next := func(contentLen int) *recSpec {
+		t += int64(r.Intn(3))
+		sp := newSpec(r, 0, seq, t, contentLen, false)
+		seq++
+		return sp
+	}
+
+	// phase A (sometimes): records that pass through before anything is blocked
+	if r.Bool() {
+		client.disarm() // nothing is buffered: no hand-over can fall between arm() in startQueueSender and here
+		nA := r.Range(1, 10)
+		if nA > st.Queue {
+			nA = st.Queue
+		}
+		for k := 0; k < nA; k++ {
+			sp := next(r.Intn(200))
+			sc.hand(sp)
+			s.Add(sp.build())
+		}
+		if !waitUntil(watchdog, func() bool { return queueLen(s.Queue) == 0 }) {
+			c.Inconclusive(caseID, "the queue was not drained within the watchdog")
+			close(client.gate)
+			stop()
+			return
+		}
+		sc.Desc["records_before_the_blocked_hand_over"] = nA
+		client.arm()
+	}
+	// R0 reaches the buffer limit in force by itself: appended under these settings it is flushed
+	// at once and the client blocks inside that hand-over (or inside an earlier one made after
+	// arm(): either way the goroutine is parked and takes nothing more from the queue).
+	r0 := next(st.Buf + r.Intn(2000))
+	sc.hand(r0)
+	s.Add(r0.build())
+	select {
+	case <-client.entered:
+	case <-time.After(watchdog):
+		c.Inconclusive(caseID, "the blocked hand-over was not observed within the watchdog")
+		close(client.gate)
+		stop()
+		return
+	}
+	// From here on the goroutine is parked. R0 is either in the pack being handed over (appended
+	// under the first settings) or still in the queue (appended later, under the last ones).
+	qlen := queueLen(s.Queue)
+	pending := []*recSpec{}
+	if qlen > 0 {
+		pending = append(pending, r0)
+		c.Count("reconfig_trigger_record_still_queued", 1)
+	}
+	nbad := 0
+	put := func(n int) {
+		for k := 0; k < n; k++ {
+			if r.Chance(1, 10) {
+				if b := newBad(r, nbad, t, st.Wait, true); b != nil {
+					sc.handBad(b, fmt.Sprintf("r0.%d", seq))
+					nbad++
+					s.Add(b.P)
+					if qlen < st.Queue {
+						qlen++ // it takes a slot like any other
+					}
+				}
+			}
+			sp := next(-1)
+			if r.Chance(2, 3) {
+				sp.setContentLen(r, r.Intn(120))
+			}
+			sc.hand(sp)
+			if qlen < st.Queue {
+				qlen++
+				pending = append(pending, sp)
+			} else {
+				sc.notAccepted[sp.ID] = true
+				c.Count("records_over_capacity", 1)
+			}
+			s.Add(sp.build())
+		}
+	}
+	rounds := r.Range(1, 3)
+	var hows []string
+	for k := 0; k < rounds; k++ {
+		if k > 0 || r.Chance(5, 6) {
+			put(r.Range(1, 14))
+		}
+		pend := len(pending)
+		var how string
+		st, how = drawReconf(r, st, qlen)
+		s.ApplyConfig(newConf(st.vals()))
+		sc.checkApplied(readSettings(s), st)
+		sc.Epochs = append(sc.Epochs, epoch{st, true})
+		if st.Wait < minWait {
+			minWait = st.Wait
+		}
+		hows = append(hows, fmt.Sprintf("%s(pending %d, capacity %d)", how, pend, st.Queue))
+		c.Count("applyconfig_calls", 1)
+		c.Count("applyconfig_calls_with_records_pending/queue_size_"+how, 1)
+		if pend > 0 {
+			c.Count("reconfigurations_with_records_pending", 1)
+			c.Count("records_pending_at_reconfiguration", int64(pend))
+			if how != "same" {
+				c.Count("queue_size_changes_with_records_pending", 1)
+			}
+			if st.Queue <= pend {
+				c.Count("capacity_shrunk_to_or_below_pending", 1)
+			}
+		}
+	}
+	if r.Chance(3, 4) {
+		put(r.Range(1, 14))
+	}
+	sc.Desc["reconfigurations_while_parked"] = hows
+	sc.Desc["records_pending_at_release"] = len(pending)
+	final := len(sc.Epochs) - 1
+	for _, sp := range pending {
+		sp.setIndex = final // appended after the release: the settings applied last are in force
+	}
+	close(client.gate)
+	if !waitUntil(watchdog, func() bool { return queueLen(s.Queue) == 0 }) {
+		c.Inconclusive(caseID, "the queue was not drained within the watchdog")
+		stop()
+		return
+	}
+	// phase C (sometimes): more records after the release, within the capacity in force
+	if r.Bool() {
+		nC := r.Range(1, 12)
+		if nC > st.Queue {
+			nC = st.Queue
+		}
+		for k := 0; k < nC; k++ {
+			sp := next(r.Intn(200))
+			sc.hand(sp)
+			s.Add(sp.build())
+		}
+		if !waitUntil(watchdog, func() bool { return queueLen(s.Queue) == 0 }) {
+			c.Inconclusive(caseID, "the queue was not drained within the watchdog")
+			stop()
+			return
+		}
+	}
+	sc.earlyGuard = time.Since(q.t0).Milliseconds()+50 < minWait
+	if !stop() {
+		c.Inconclusive(caseID, "the background goroutine did not end within the watchdog after cancellation")
+		return
+	}
+	if client.expired() {
+		c.Inconclusive(caseID, "the blocked hand-over was not released within the watchdog")
+		return
+	}
+	for _, id := range leftInQueue(s.Queue) {
+		sc.inQueue[id] = true // nothing is expected here: the queue was seen empty before the stop
+	}
+	c.Count("queue_scenarios_stopped", 1)
+	c.Count("reconfig_scenarios", 1)
+	sc.hs = client.snapshot()
+	sc.describe(r)
+	sc.evaluate()
+}
+
+// cases runs one section and records how long this shard spent in it (evidence only).
+func cases(c *vlib.Ctx, section string, n int, fn func(i int, r *vlib.Rand)) {
+	t0 := time.Now()
+	c.Cases(section, n, fn)
+	c.Max("max_shard_ms_in/"+section, time.Since(t0).Milliseconds())
+}
+
 func main() {
 	c := vlib.Start("C16")
+	probeBadKinds(c)
 	debug.SetGCPercent(400) // every pack allocates a gzip writer (~1 MB): collect less often
 	race := c.Flavour == "race"
 	if !race {
-		c.Cases("append-defaults", c.N(96, 2400), func(i int, r *vlib.Rand) { runAppend(c, "append-defaults", r, true) })
-		c.Cases("append-config", c.N(480, 12000), func(i int, r *vlib.Rand) { runAppend(c, "append-config", r, false) })
-		c.Cases("senddirect-defaults", c.N(64, 1600), func(i int, r *vlib.Rand) { runSendDirect(c, "senddirect-defaults", r, true) })
-		c.Cases("senddirect-config", c.N(320, 8000), func(i int, r *vlib.Rand) { runSendDirect(c, "senddirect-config", r, false) })
+		cases(c, "append-defaults", c.N(96, 2400), func(i int, r *vlib.Rand) { runAppend(c, "append-defaults", r, true) })
+		cases(c, "append-config", c.N(480, 12000), func(i int, r *vlib.Rand) { runAppend(c, "append-config", r, false) })
+		cases(c, "senddirect-defaults", c.N(64, 1600), func(i int, r *vlib.Rand) { runSendDirect(c, "senddirect-defaults", r, true) })
+		cases(c, "senddirect-config", c.N(320, 8000), func(i int, r *vlib.Rand) { runSendDirect(c, "senddirect-config", r, false) })
 	}
-	nq, nd, nc, ns := c.N(240, 4000), c.N(8, 64), c.N(20, 200), c.N(96, 1600)
+	nq, nd, nc, ns, nr := c.N(240, 4000), c.N(8, 64), c.N(20, 200), c.N(96, 1600), c.N(64, 800)
 	if race {
-		nq, nd, nc, ns = c.N(80, 1200), c.N(4, 24), c.N(8, 60), c.N(40, 480)
+		nq, nd, nc, ns, nr = c.N(80, 1200), c.N(4, 24), c.N(8, 60), c.N(40, 480), c.N(16, 200)
 	}
-	c.Cases("queue-stop", ns, func(i int, r *vlib.Rand) { runStop(c, "queue-stop", i, r) })
-	c.Cases("queue-config", nq, func(i int, r *vlib.Rand) { runQueue(c, "queue-config", i, r, "config") })
-	c.Cases("queue-capacity", nc, func(i int, r *vlib.Rand) { runQueue(c, "queue-capacity", i, r, "capacity") })
-	c.Cases("queue-defaults", nd, func(i int, r *vlib.Rand) { runQueue(c, "queue-defaults", i, r, "defaults") })
+	cases(c, "queue-reconfig", nr, func(i int, r *vlib.Rand) { runReconfig(c, "queue-reconfig", i, r) })
+	cases(c, "queue-stop", ns, func(i int, r *vlib.Rand) { runStop(c, "queue-stop", i, r) })
+	cases(c, "queue-config", nq, func(i int, r *vlib.Rand) { runQueue(c, "queue-config", i, r, "config") })
+	cases(c, "queue-capacity", nc, func(i int, r *vlib.Rand) { runQueue(c, "queue-capacity", i, r, "capacity") })
+	cases(c, "queue-defaults", nd, func(i int, r *vlib.Rand) { runQueue(c, "queue-defaults", i, r, "defaults") })
 
 	if c.Only == "" {
 		c.Floor("packs", 40, c.Counter("packs"))
@@ -801,6 +1153,11 @@ func main() {
 		c.Floor("queue_scenarios_stopped", 3, c.Counter("queue_scenarios_stopped"))
 		c.Floor("stop_scenarios", 2, c.Counter("stop_scenarios"))
 		c.Floor("stop_scenarios_with_buffered_records_flushed_by_stop", 1, c.Counter("stop_scenarios_with_buffered_records_flushed_by_stop"))
+		c.Floor("reconfigurations_with_records_pending", 1, c.Counter("reconfigurations_with_records_pending"))
+		c.Floor("queue_size_changes_with_records_pending", 1, c.Counter("queue_size_changes_with_records_pending"))
+		if len(usableBadKinds) > 0 {
+			c.Floor("unencodable_records_handed_over", 2, c.Counter("unencodable_records_handed_over"))
+		}
 		if !race {
 			c.Floor("retained_packs_compared", 20, c.Counter("retained_packs_compared"))
 			c.Floor("defaults_settings_read", 20, c.Counter("defaults_settings_read"))
